@@ -95,6 +95,38 @@ def run(ctx, config):
         r2.bad("K8:tcp_read_message:length-vs-buffer", "%s:%d" % (g.file, g.line), g.name, "the reported message length is not tied to the allocated buffer size")
     rules.append(r2)
 
+    # ---- the question array is allocated for exactly as many entries as the loop may store
+    r2b = Rule("C37-array", "K4", "heap arrays filled in a counted loop are allocated with that loop's bound", floor=1)
+    arrays = {}
+    for el, lhs, op, rhs in f.stores():
+        l, rr = strip(lhs), strip(rhs)
+        if is_e(l, "fld") and is_e(rr, "call") and callee_name(rr) in ("event_mm_calloc_", "calloc") and len(rr[2]) == 2:
+            arrays[l[2]] = (el, rr[2])
+    for el, lhs, op, rhs in f.stores():
+        l = strip(lhs)
+        if is_e(l, "idx") and is_e(strip(l[1]), "fld") and strip(l[1])[2] in arrays:
+            fld = strip(l[1])[2]
+            ael, args = arrays[fld]
+            hdrs = [b for b in f.branch_blocks() if b.term["k"] in ("for", "while") and el.bid in f.natural_loop(b.id)]
+            ok = False
+            bound = None
+            for b in hdrs:
+                c = strip(b.term["cond"])
+                if is_e(c, "bin") and c[1] == "<":
+                    bound = strip(c[3])
+                    if any(eq(strip(a), bound) for a in args):
+                        ok = True
+            # the index only counts stored elements: it is incremented once per store
+            ix = strip(l[2])
+            once = is_e(ix, "incdec") and ix[1] == "++"
+            r2b.inst((fld, el.n), {"site": el.where(), "store": show(el.e)[:60], "allocated": show(ael.e)[:80], "loop_bound": show(bound) if bound else None,
+                                   "allocation_count_is_loop_bound": ok, "index_incremented_per_store": once})
+            if not ok:
+                r2b.bad("K4:request_parse:%s:allocation-smaller-than-loop" % fld, el.where(), f.name,
+                        "%s is allocated with %s elements but filled in a loop bounded by %s: the loop can store past the allocation"
+                        % (fld, " x ".join(show(a) for a in args), show(bound) if bound else "?"))
+    rules.append(r2b)
+
     r3 = Rule("C37-cleanup", "K11", "request_parse releases what it allocated on every failure exit (or hands it to the responder)", floor=1)
     alloc = [el for el in f.calls() if callee_name(el.e) in ("event_mm_malloc_", "malloc") and any(
         nx.e[0] == "asg" and eq(strip(nx.e[2]), ["var", "server_req", "local"]) for nx in f.blocks[el.bid].elems[el.idx + 1:el.idx + 2])]
